@@ -1,6 +1,7 @@
 package main
 
 import (
+	"go/ast"
 	"fmt"
 	"go/types"
 	"sort"
@@ -571,11 +572,37 @@ func c04Windows(c *Ctx) {
 	const rule = "C04-D5"
 	dense := c.P.NamedType(pkgStore, "DenseStore")
 	n := 0
-	for _, name := range []string{"ForEach", "Bins", "Encode", "encodeSparsely"} {
-		f := c.P.DeclaredMethod(dense, name)
-		if f == nil {
-			continue
+	// the read paths: ForEach, Bins, Encode and whatever Encode delegates to with the store as receiver or first
+	// argument (encodeSparsely / encodeDensely today, under any name, as methods or as plain functions)
+	var roots []*ssa.Function
+	seenF := map[*ssa.Function]bool{}
+	var addF func(f *ssa.Function)
+	addF = func(f *ssa.Function) {
+		if f == nil || seenF[f] {
+			return
 		}
+		seenF[f] = true
+		roots = append(roots, f)
+		for _, b := range f.Blocks {
+			for _, in := range b.Instrs {
+				ci, ok := in.(ssa.CallInstruction)
+				if !ok {
+					continue
+				}
+				cal, ok := ci.Common().Value.(*ssa.Function)
+				if !ok || !inModule(cal) || len(cal.Params) == 0 || ast.IsExported(cal.Name()) {
+					continue
+				}
+				if pt, ok := cal.Params[0].Type().(*types.Pointer); ok && types.Identical(pt.Elem(), dense) {
+					addF(cal)
+				}
+			}
+		}
+	}
+	for _, name := range []string{"ForEach", "Bins", "Encode"} {
+		addF(c.P.DeclaredMethod(dense, name))
+	}
+	for _, f := range roots {
 		fns := append([]*ssa.Function{f}, f.AnonFuncs...)
 		for _, fn := range fns {
 			for _, l := range countingLoops(c.P, fn) {
